@@ -1,4 +1,5 @@
 import BstreamVerif.Model.Forkable
+import BstreamVerif.Model.HubBurst
 import BstreamVerif.Spec.Consumer
 import BstreamVerif.Drv.Util
 /- Line protocol for suite `forkable`:
@@ -8,7 +9,7 @@ import BstreamVerif.Drv.Util
    impl|model ret <ok|errinvalid|errhandler>
    impl|model q <name> <value…>          (queries after every block; C18) -/
 namespace BstreamVerif.Drv.ForkableDrv
-open BstreamVerif BstreamVerif.ForkDB BstreamVerif.Forkable BstreamVerif.Drv
+open BstreamVerif BstreamVerif.ForkDB BstreamVerif.Forkable BstreamVerif.HubBurst BstreamVerif.Drv
 
 def tokId (s : String) : Id := if s == "-" then "" else s
 def idTok (s : Id) : String := if s == "" then "-" else s
@@ -61,6 +62,41 @@ def queryLines (s : FState) (nums : List Nat) (ids : List Id) : List String :=
     "q byhash " ++ " ".intercalate (ids.map fun i => s!"{idTok i}={if (getBlockByHash s i).isSome then 1 else 0}"),
     "q at " ++ " ".intercalate (nums.map fun n => s!"{n}={let l := allBlocksAt s n; if l.isEmpty then "-" else ",".intercalate (l.map (idTok ·.id))}") ]
 
+def bevLine (e : Event) : String :=
+  s!"b {e.step.name} {idTok e.blk.id} {e.blk.num} {refTok e.head} {refTok e.lib} {match e.junction with | some j => refTok j | none => "-"}"
+
+def burstLines (r : Option (List Event)) : List String :=
+  match r with
+  | some evs => evs.map bevLine ++ ["bret ok"]
+  | none => ["bret err"]
+
+def parseCur (st b h l : String) : Option Cur := do
+  let st ← Step.ofName st
+  let b ← parseRefTok b; let h ← parseRefTok h; let l ← parseRefTok l
+  pure ⟨st, b, h, l⟩
+
+/-- the burst / snapshot queries of the hub suites -/
+def burstOp (s : FState) (ws : List String) : Option (List String) :=
+  match ws with
+  | ["op", "fromnum", n] => n.toNat?.map (fun n => burstLines (blocksFromNum s n))
+  | ["op", "forks", n] =>
+    n.toNat?.map (fun n => match blocksFromNumWithForks s n with
+      | some bs => ["bf " ++ (if bs.isEmpty then "-" else ",".intercalate (bs.map (fun b => refTok b.ref))), "bret ok"]
+      | none => ["bret err"])
+  | ["op", "fromcursor", _, st, b, h, l] =>
+    (parseCur st b h l).map (fun c => burstLines (blocksFromCursor s 4 c))
+  | ["op", "through", start, _, st, b, h, l] =>
+    match start.toNat?, parseCur st b h l with
+    | some start, some c => some (burstLines (hubThroughCursor s start c))
+    | _, _ => none
+  | ["op", "snapshot"] =>
+    -- canonical retained segment from the head, and the hub's LIB
+    some [ match headSegment s with
+           | some (_, seg) => "canon " ++ (if seg.isEmpty then "-" else ",".intercalate (seg.map (fun e => refTok e.blk.ref)))
+           | none => "canon none",
+           "lowest " ++ (match lowestBlockNum s with | some n => toString n | none => "panic") ]
+  | _ => none
+
 def insertNat (n : Nat) : List Nat → List Nat
   | [] => [n]
   | x :: xs => if n < x then n :: x :: xs else if n == x then x :: xs else x :: insertNat n xs
@@ -76,7 +112,10 @@ def runCase (cfg : Config) (withQueries : Bool) (body : List (List String)) : Li
     match parseBlkOp ws with
     | none =>
       -- `op twin …`: C03 says the implementation's two traces are the same (kept_irrelevant / noise_irrelevant)
-      if ws.take 2 == ["op", "twin"] then { r with out := "model twin same" :: r.out } else r
+      if ws.take 2 == ["op", "twin"] then { r with out := "model twin same" :: r.out }
+      else match burstOp r.st ws with
+        | some lines => { r with out := (lines.map ("model " ++ ·)).reverse ++ r.out }
+        | none => r
     | some (b, failAt) =>
       let (s', evs, res) := processBlock cfg r.st b failAt
       let nums := insertNat b.num r.nums
